@@ -23,6 +23,7 @@ type Program struct {
 	interpPkg map[string]bool
 	fset    *token.FileSet
 	mainPkg *ssa.Package
+	utf8Dec *ssa.Function
 }
 
 type opKind uint8
@@ -70,6 +71,19 @@ type cfunc struct {
 }
 
 type intrinsicFn func(it *Interp, fr *frame, args []Value) Value
+
+func (p *Program) utf8Decode() *ssa.Function {
+	p.mu.Lock()
+	defer p.mu.Unlock()
+	if p.utf8Dec == nil {
+		pkg := p.prog.ImportedPackage("unicode/utf8")
+		if pkg == nil {
+			panic("unicode/utf8 not loaded")
+		}
+		p.utf8Dec = pkg.Func("DecodeRuneInString")
+	}
+	return p.utf8Dec
+}
 
 func (p *Program) compile(fn *ssa.Function) *cfunc {
 	p.mu.Lock()
@@ -838,6 +852,7 @@ func (it *Interp) noteWrite(fr *frame, p Ptr) {
 }
 
 func (it *Interp) store(fr *frame, p Ptr, v Value, ti *TInfo) {
+	p = it.concretePtr(fr, p)
 	if p.cell == nil {
 		it.goPanicf(fr, "invalid memory address or nil pointer dereference (store)")
 	}
@@ -950,7 +965,17 @@ func (it *Interp) viewField(fr *frame, at, vt *TInfo, i int, p Ptr) int {
 	return -1
 }
 
+// concretePtr resolves a pointer to a symbolically indexed element by forking on the index.
+func (it *Interp) concretePtr(fr *frame, p Ptr) Ptr {
+	if p.sarr == nil {
+		return p
+	}
+	k := it.forkIndex(fr, p.sidx, len(p.sarr))
+	return Ptr{cell: &p.sarr[k], obj: p.obj, elems: p.sarr[k:]}
+}
+
 func (it *Interp) fieldAddr(fr *frame, p Ptr, st *TInfo, field int) Ptr {
+	p = it.concretePtr(fr, p)
 	if p.cell == nil {
 		it.goPanicf(fr, "invalid memory address or nil pointer dereference (field %d of nil *%s)", field, st.name)
 	}
